@@ -56,6 +56,8 @@ func (s *c25) Build(w *World) {
 	drawProfile(w)
 	NewFabric(w)
 	w.Net.StalledPairs = map[string]bool{}
+	w.Net.StalledDials = map[string]bool{}
+	w.TrackLocks()
 	w.MaxIdle = 20 * time.Second // far below the send timeout: the stall must not resolve itself
 	if s.requestor {
 		s.buildRequestor(w)
@@ -75,6 +77,10 @@ func (s *c25) Build(w *World) {
 	s.b = NewNode(w, "B", NodeCfg{GateReads: true, Opts: opts})
 	s.s = NewNode(w, "S", NodeCfg{GateReads: true, GateCommits: true})
 	w.Net.StalledPairs["B>S"] = true
+	// in a third of the runs (tape digest) the stalled peer cannot even be dialled: the dial does not come back
+	if t.Digest()%3 == 0 {
+		w.Net.StalledDials["B>S"] = true
+	}
 	for _, nm := range []string{"X", "Y"} {
 		s.others = append(s.others, NewNode(w, nm, NodeCfg{GateReads: true, GateCommits: true}))
 	}
@@ -149,6 +155,10 @@ func (s *c25) buildRequestor(w *World) {
 	s.b = NewNode(w, "B", bcfg)
 	s.s = NewNode(w, "S", NodeCfg{GateReads: true, GateCommits: true})
 	w.Net.StalledPairs["B>S"] = true
+	// in a third of the runs (tape digest) the stalled responder cannot even be dialled: the dial does not come back
+	if w.Tape.Digest()%3 == 0 {
+		w.Net.StalledDials["B>S"] = true
+	}
 	if serving {
 		dS := GenDAG(t, GenCfg{MaxBlocks: 6 + t.Draw(6), MaxDepth: 2, BlockPad: blk})
 		for _, c := range dS.Order {
